@@ -222,6 +222,9 @@ def oracle_static(src, node, quirks):
     fns = [n for n in ast.walk(node) if isinstance(n, (ast.FunctionDef, ast.Lambda))]
     failures = []
     known = set()
+    # the known finding activity-nested-params-leak can only explain a difference while the implementation
+    # shows the behaviour (measured by tools/translate/c08_quirks.py); after the fix it explains nothing
+    leak_active = bool(quirks) and any(quirks.values())
     # a walrus inside a comprehension hides the name for everything nested in that comprehension (lambdas)
     w_all = set()
     for c in ast.walk(node):
@@ -254,7 +257,7 @@ def oracle_static(src, node, quirks):
         h_loc = simple(sc.bound) - declg - decln - ex
         s_loc = set(t.get_locals()) - ex
         extra, missing = h_loc - s_loc, s_loc - h_loc
-        if extra and extra <= nested_param_names(fn):
+        if extra and leak_active and extra <= nested_param_names(fn):
             known.add(KF_LEAK)
             extra = set()
         if missing and missing <= walrus_in_comp_names(fn):
@@ -292,7 +295,7 @@ def oracle_static(src, node, quirks):
         name_based = name_based_free_var_names(fn)
         unexplained = set()
         for nme in (h_fv - s_fv) | (s_fv - h_fv):
-            if nme in leak:
+            if nme in leak and leak_active:
                 known.add(KF_LEAK)
             elif nme in w_all:
                 known.add(KF_WALRUS)
@@ -360,12 +363,13 @@ def run_events(src, dv):
     go.d = {}
     glb['GO'] = go
     glb['GV'] = 5
+    glb['TY'] = int
     exec(compile(src, '<c08>', 'exec'), glb)
     kind, val, events = pyrt.run_var_events(glb['f'], (1, 2, 3), world)
     return kind, val, events
 
 
-def oracle_dynamic(src, node, dvs):
+def oracle_dynamic(src, node, dvs, quirks=None):
     """-> (failures, per-line observed events {(fname, line): (R, W, D)}, number of events judged)"""
     per_fn, stmts = line_scopes(node)
     handler_names = {}
@@ -377,6 +381,13 @@ def oracle_dynamic(src, node, dvs):
     failures = []
     observed = {}
     judged = 0
+    known = set()
+    leak_active = bool(quirks) and any(quirks.values())
+    def_annots = {}     # (function name, line of a def statement) -> names read by its parameter annotations
+    for fn in [n for n in ast.walk(node) if isinstance(n, ast.FunctionDef)]:
+        for s in ast.walk(fn):
+            if isinstance(s, ast.FunctionDef) and s is not fn:
+                def_annots.setdefault((fn.name, s.lineno), set()).update(own_annotation_names(s))
     for dv in dvs:
         try:
             kind, val, events = run_events(src, dv)
@@ -403,11 +414,13 @@ def oracle_dynamic(src, node, dvs):
                 have |= simple(getattr(s, want))
             o = observed.setdefault((code, line), (set(), set(), set()))
             o[{'read': 0, 'modified': 1, 'deleted': 2}[want]].add(var)
-            if var not in have:
+            if var not in have and leak_active and want == 'read' and var in def_annots.get((code, line), ()):
+                known.add(KF_LEAK)     # the def statement evaluates its parameter annotations; its scope misses them
+            elif var not in have:
                 failures.append(('variable %s by an executed statement is not in its %s set' % (
                     {'read': 'read', 'modified': 'rebound', 'deleted': 'deleted'}[want], want),
                     '%s line %d: %s of %r; %s set of the statement scope = %s' % (code, line, k, var, want, sorted(have)), dv))
-    return failures, observed, stmts, judged
+    return failures, observed, stmts, judged, known
 
 
 # ------------------------------------------------------------------------------------------------
@@ -559,7 +572,9 @@ def check(run):
             unsupported[str(e)] = unsupported.get(str(e), 0) + 1
             ex = None
         if dynamic:
-            fs, observed, stmts, judged = oracle_dynamic(src, node, decision_vectors(rnd, n_vec))
+            fs, observed, stmts, judged, known = oracle_dynamic(src, node, decision_vectors(rnd, n_vec), quirks)
+            for k in known:
+                known_seen.setdefault(k, src)
             run.count(judged)
             for what, detail, dv in fs:
                 failures.append((what, detail, src, dv))
@@ -645,7 +660,8 @@ def replay(path):
     fs, known = oracle_static(src, node, quirks)
     out = [(w, d) for w, d in fs]
     if rp.get('decisions') is not None:
-        f2, _, _, _ = oracle_dynamic(src, node, [rp['decisions']])
+        f2, _, _, _, k2 = oracle_dynamic(src, node, [rp['decisions']], quirks)
+        known |= k2
         out += [(w, d) for w, d, _ in f2]
     for w, d in out:
         print('FAIL: %s -- %s' % (w, d))
